@@ -305,6 +305,11 @@ def check_scenario(sc, base_dir, st: Stats, pairs: bool, only=None):
         if res.get("status") == "success":
             if tgt is None or (res.get("canonical_hash") and hashlib.sha256(tgt).hexdigest() != res["canonical_hash"]):
                 fails.append((f"C16:unlisted:success-hash-mismatch:{sc['entry']}", f"{where}: returned success but sha256(file) != canonical_hash", plan))
+            elif tgt != new_bytes:
+                # "the complete new canonical text": a call that reports success after a fault must have installed what
+                # the fault-free call installs, not something computed from a failed read
+                fails.append((f"C16:unlisted:success-but-not-the-new-text:{sc['entry']}", f"{where}: returned success but the target holds {len(tgt)} bytes that are not the "
+                              f"fault-free result ({len(new_bytes)} bytes): {tgt[:120]!r}", plan))
             if old_bytes is not None and state["mode"] != sc["fmode"]:
                 fails.append((f"C16:unlisted:success-mode-not-preserved:{sc['entry']}", f"{where}: success but mode {oct(sc['fmode'])} -> {oct(state['mode'] or 0)}", plan))
         else:
